@@ -2,6 +2,7 @@
   C02 — integer solutions of the polyhedron are exactly the satisfying configurations.
 -/
 import Puan.Props.C01
+import Puan.Lemmas.SafeBuild
 namespace Puan.C02
 open Puan P
 
@@ -73,6 +74,29 @@ theorem unsafe_witness :
     let t : P := .node "T" ⟨0,1⟩ (-1) 0 [.node "B" ⟨0,1⟩ 1 1 [.leaf "a" ⟨0,1⟩] {}] {}
     let x : String → Int := fun i => if i = "a" then 1 else 0
     (encode true t).all (fun r => decide (r.sat x)) = true ∧ evalPt x t = 0 := by decide
+
+/-- "Negation pushes inwards to re-establish this form": every constructor expression of the safe grammar
+    (boolean variables; All / Any / XNor / Imply / Not / positively signed AtLeast over safe arguments, arbitrarily
+    nested; AtMost / Xor / negatively signed AtLeast over variables only) builds a model in solver-safe form … -/
+theorem expr_safe (a : Ast) (h : a.SafeExpr) : Safe a.build := (Ast.build_sb a h).1
+
+/-- … so for such an expression the leaf part of every in-bounds integer point of the asserted polyhedron
+    makes the model true: whatever an exact ILP solver returns is a valid configuration. -/
+theorem expr_sound (a : Ast) (x : String → Int) (i b s v ks m) (h : a.SafeExpr) (hb : a.build = .node i b s v ks m)
+    (hf : Free01 a.build) (hx : Box x a.build) (hr : ∀ r ∈ encode true a.build, r.sat x) :
+    evalPt x a.build = 1 := by
+  have hs := expr_safe a h
+  rw [hb] at hs hf hx hr ⊢
+  exact sound_active x i b s v ks m hs hf hx hr
+
+/-- non-vacuity of `expr_safe` (the witness of seeded change C02-a): Not(XNor(All(a,b), Any(c,d))) is in the
+    safe grammar, although it negates an "at most" over compounds twice -/
+example :
+    let a : Ast := .not (.xnor [.all [.str "a", .str "b"] none, .any [.str "c", .str "d"] none] none)
+    a.SafeExpr ∧ Safe a.build := by
+  intro a
+  have h : a.SafeExpr := by simp [a, Ast.SafeExpr, Ast.SafeExprL]
+  exact ⟨h, expr_safe a h⟩
 
 /-- non-vacuity of `sound_active`: a solver-safe model and an in-box point satisfying all rows -/
 example :
